@@ -25,6 +25,8 @@ var vHoleDocs = []string{
 		"DELETE /b\r\n  Tags @a\r\n  200 empty\r\n",
 	// 3: duplicated names and includes (nearly valid)
 	"JSIGHT 0.3\nTYPE @a\n{}\nTYPE @b regex\n/a/\nINCLUDE inc.jst\nGET /q\n  Query \"a=1\"\n  {\"a\": 1}\n  200 @a\nINCLUDE inc.jst\n",
+	// 4: schema constructs: enum rule, regex type, min, allOf, or, a type used before its definition, arrays, Path, Query
+	"JSIGHT 0.3\nENUM @e\n[1, \"a\"]\nTYPE @s regex\n/ab+/\nTYPE @base\n{\n  \"id\": 1, // {min: 0}\n  \"k\": \"a\" // {enum: @e}\n}\nTYPE @kid\n{ // {allOf: \"@base\"}\n  \"s\": @s,\n  \"u\": 1 // {or: [\"@s\", \"integer\"]}\n}\nTYPE @late\n{\n  \"b\": @base // {optional: true}\n}\nGET /x/{id}\n  Path\n  {\"id\": 5}\n  Query\n  {\"q\": [1, 2]}\n  200 [@kid]\nPOST /x\n  Request @late\n  201 @s\n",
 }
 
 // HBuildHole (C01, C07-b): doc[:cut] ++ k arbitrary bytes (++ doc[cut+k:] when mode=1).
